@@ -948,10 +948,16 @@ def generate(rng, tier):
     for i in range(600 if thorough else 120):
         ga = refill(rng, rand_geom(rng, tier), boundary_byte=False)
         gb = refill(rng, rand_geom(rng, tier), boundary_byte=False)
+        failing_first = False
+        if i % 5 == 0:
+            # the first call FAILS (a mesh without a POSITION attribute is refused by the writers): the object must be
+            # as usable afterwards as after a successful call
+            ga = G.rand_mesh(rng, rng.choice([4, 12]), specs=[(rng.choice([G.GENERIC, G.TEX_COORD, G.NORMAL]), G.DT["f32"], 3, False, 0)])
+            failing_first = True
         am = 1 if gb.is_mesh else 0
         op = "obj_rth" if i % 2 == 0 else "ply_rth"
         cases.append(case_from_line(f"{op} {am} {ga.to_text()} -- {gb.to_text()}", "asan" if i % 4 == 0 else "plain",
-                                    (op, "history:" + ("mesh" if ga.is_mesh else "pc") + "->" + ("mesh" if gb.is_mesh else "pc"))))
+                                    (op, "history:" + ("failed-mesh" if failing_first else "mesh" if ga.is_mesh else "pc") + "->" + ("mesh" if gb.is_mesh else "pc"))))
     # ---- 2. geometries outside the property's domain (other types / several attributes of a kind / no position):
     #         correspondence, and the oracles wherever the theorems' hypotheses hold
     for i in range(1500 if thorough else 300):
